@@ -232,6 +232,42 @@ pub struct Session {
     pub messages: usize,
     pub transcript: Vec<Vec<u8>>,
     pub terminated: bool,
+    /// Entries carried by the messages each side processed / emitted, and the per-author maximum
+    /// timestamp over the entries it processed (what `SyncOutcome` is documented to hold).
+    pub a_carried: Carried,
+    pub b_carried: Carried,
+}
+
+#[derive(Default, Debug, Clone)]
+pub struct Carried {
+    pub received: usize,
+    pub sent: usize,
+    pub heads: std::collections::BTreeMap<[u8; 32], u64>,
+}
+
+impl Carried {
+    fn recv(&mut self, msg: &ProtocolMessage) {
+        for (e, _) in verif::message_values(msg) {
+            self.received += 1;
+            let h = self.heads.entry(e.author().to_bytes()).or_insert(0);
+            *h = (*h).max(e.timestamp());
+        }
+    }
+    /// None if `o` says exactly what was carried.
+    pub fn mismatch(&self, o: &SyncOutcome) -> Option<String> {
+        let got: std::collections::BTreeMap<[u8; 32], u64> =
+            o.heads_received.iter().map(|(a, t)| (a.to_bytes(), *t)).collect();
+        if got != self.heads || o.num_recv != self.received || o.num_sent != self.sent {
+            let show = |m: &std::collections::BTreeMap<[u8; 32], u64>| {
+                m.iter().map(|(a, t)| format!("{}@{}", hex::encode(&a[..2]), t)).collect::<Vec<_>>().join(",")
+            };
+            return Some(format!(
+                "outcome sent/recv={}/{} heads=[{}] but the messages carried sent/recv={}/{} heads=[{}]",
+                o.num_sent, o.num_recv, show(&got), self.sent, self.received, show(&self.heads)
+            ));
+        }
+        None
+    }
 }
 
 /// One complete session, `alice` initiating. `stop_after`: abort after that many messages have
@@ -252,6 +288,7 @@ pub fn run_session(
     let mut to_bob = true;
     let mut terminated = true;
     let mut processed = 0usize;
+    let (mut ca, mut cb) = (Carried::default(), Carried::default());
     while let Some(msg) = next.take() {
         messages += 1;
         transcript.push(postcard::to_stdvec(&msg)?);
@@ -266,9 +303,19 @@ pub fn run_session(
             }
         }
         next = if to_bob {
-            bob.process(ns, cfg, msg, [1u8; 32], &mut b)?
+            cb.recv(&msg);
+            let r = bob.process(ns, cfg, msg, [1u8; 32], &mut b)?;
+            if let Some(r) = &r {
+                cb.sent += verif::message_values(r).len();
+            }
+            r
         } else {
-            alice.process(ns, cfg, msg, [2u8; 32], &mut a)?
+            ca.recv(&msg);
+            let r = alice.process(ns, cfg, msg, [2u8; 32], &mut a)?;
+            if let Some(r) = &r {
+                ca.sent += verif::message_values(r).len();
+            }
+            r
         };
         processed += 1;
         to_bob = !to_bob;
@@ -279,6 +326,8 @@ pub fn run_session(
         messages,
         transcript,
         terminated,
+        a_carried: ca,
+        b_carried: cb,
     })
 }
 
